@@ -36,7 +36,9 @@ TECHNIQUE = ("Coq model of the serializer (SerModel.v) proved against an indepen
 RULE = ("seeded trees (strings with control bytes, NUL, bytes >= 0x80, '/', quotes; int64/uint64 edges; doubles from lattices: powers of "
         "two and ten +- ulp, subnormals, 17-significant-digit cases, exponents ending in 0, integral doubles, random bit patterns; retained-text "
         "doubles; nesting up to 8; empty containers) x flag words (quick: 0 plus a rotating covering subset of the 64; thorough: all 64); "
-        "plus histories: trees reached through deep copies, re-parses, in-place setters (double/int64/uint64/boolean/string), child replacement "
+        "plus a grid of byte sequences that escaping code special-cases (U+2028/9 and their byte neighbours, U+007F..U+00A0, BOM, U+FFFD..FFFF, "
+        "surrogate-range neighbours, 4-byte and beyond-range forms, overlong/truncated forms, lone continuation bytes) alone/first/last/doubled/next to "
+        "every JSON special, as string values and member names, under all 64 flag words; plus histories: trees reached through deep copies, re-parses, in-place setters (double/int64/uint64/boolean/string), child replacement "
         "and deletion, aimed at doubles that carry retained text and at every node type; "
         "non-trivial = the text contains an escape, a double, or a container and was accepted by the RFC reader; distinct by (tree, flags, history)")
 TRUSTED = ["Coq 8.16.1 kernel (coqc; vm_compute for the witnesses), no axioms",
@@ -414,6 +416,73 @@ STRING_EDGES = [b"", b"/", b"a/b", b"</script>", b"\"", b"\\", b"\\\"", b"\x00",
                 b"nul\x00/slash\\back\"quote", b"e", b"1e+20", b"[1,2]", b"{\"a\":1}", b" \n "]
 
 
+# byte sequences that escaping code somewhere special-cases (JavaScript-safe escaping, HTML-safe escaping, UTF-8
+# validation, BOM stripping ...): every one must survive as it is, in a string value and in a member name
+def _u(cp):
+    return chr(cp).encode("utf-8", "surrogatepass")
+
+
+SEQ_DICT = [_u(0x2028), _u(0x2029), _u(0x7f), _u(0x80), _u(0x85), _u(0xa0), _u(0xad), _u(0xff), _u(0x100), _u(0x7ff), _u(0x800),
+            _u(0x200b), _u(0x200e), _u(0x2027), _u(0x202a), _u(0x202e), _u(0x2060), _u(0xfeff), _u(0xfffd), _u(0xfffe), _u(0xffff),
+            _u(0xd7ff), _u(0xe000), _u(0xd800), _u(0xdbff), _u(0xdc00), _u(0xdfff),            # the surrogate range and its neighbours
+            _u(0xd83d) + _u(0xde00),                                                           # CESU-8 pair
+            _u(0x10000), _u(0x1f600), _u(0x10ffff), b"\xf4\x90\x80\x80", b"\xf8\x88\x80\x80\x80",   # 4 bytes, beyond U+10FFFF, 5-byte form
+            b"\xc0\x80", b"\xc0\xaf", b"\xc1\xbf", b"\xe0\x80\xaf", b"\xe0\x9f\xbf", b"\xf0\x80\x80\xaf", b"\xf0\x8f\xbf\xbf",   # overlong
+            b"\xc2", b"\xe2", b"\xe2\x80", b"\xf0\x9f", b"\xf0\x9f\x98", b"\xe2\x80\xe2\x80\xa9",   # truncated
+            b"\x80", b"\xbf", b"\x80\x80", b"\xa8", b"\xa9", b"\x80\xa9", b"\xfe", b"\xff", b"\xfe\xff", b"\xff\xfe", b"\xef\xbb\xbf",   # lone continuation bytes, BOMs
+            b"<", b">", b"&", b"'", b"</", b"<!--", b"]]>", b"\x7f", b"\x1b", b"%", b"%s", b"\\u2029", b"\\u0000", b"u2028"]
+# e2 80 a8 / e2 80 a9 with each byte moved by one, and sweeps through the neighbouring sequences
+SEQ_NEAR = sorted(set(bytes([a, b, c]) for base in (b"\xe2\x80\xa8", b"\xe2\x80\xa9")
+                      for i in range(3) for d in (-1, 0, 1)
+                      for (a, b, c) in [tuple(base[j] + (d if j == i else 0) for j in range(3))]))
+SEQ_SWEEP = ([bytes([0xe2, 0x80, x]) for x in range(0x80, 0xc0)] + [bytes([0xe2, x, 0xa8 + (x & 1)]) for x in range(0x7e, 0xc2)] +
+             [bytes([x, 0x80, 0xa9]) for x in range(0xdf, 0xf1)] + [bytes([0xe2, 0x80]) + bytes([x]) for x in (0x00, 0x20, 0x22, 0x5c, 0x2f, 0x7f, 0xc0, 0xff)])
+NEIGHBOURS = [b"", b"a", b"/", b"\"", b"\\", b"\x01", b"\x1f", b" ", b"\n", b"\x7f", b"\xe2", b"\x80", b"\xa9", b"\xe2\x80", b"\xc3\xa9", b"\x00"]
+
+
+def special_string(rng, nul=True):
+    """a string composed of dictionary sequences, ASCII, the JSON specials and control bytes"""
+    parts = []
+    for _ in range(rng.choice([1, 1, 2, 3, 4, 6])):
+        r = rng.random()
+        if r < 0.5:
+            parts.append(rng.choice(SEQ_DICT))
+        elif r < 0.65:
+            parts.append(rng.choice(SEQ_NEAR))
+        elif r < 0.8:
+            parts.append(rng.choice(NEIGHBOURS))
+        else:
+            parts.append(bytes(rng.choice(b"abcXYZ019 /\"\\\x08\x0c\t\x1e") for _ in range(rng.randint(1, 4))))
+    out = b"".join(parts)
+    return out if nul else out.replace(b"\x00", b"\x01")
+
+
+def string_grid():
+    """every dictionary sequence alone, first, last, in the middle, doubled and next to every neighbour;
+    yields trees: an array of the strings and an object that has them as member names and as values"""
+    strs = []
+    for q in SEQ_DICT + SEQ_NEAR:
+        strs += [q, q + q]
+        for n in NEIGHBOURS[1:]:
+            strs += [n + q, q + n, n + q + n]
+        strs += [b"ab" + q + b"cd", q + b"/" + q, b"\"" + q + b"\\"]
+    strs += SEQ_SWEEP
+    seen, uniq = set(), []
+    for x in strs:
+        if x not in seen:
+            seen.add(x)
+            uniq.append(x)
+    for i in range(0, len(uniq), 24):
+        chunk = uniq[i:i + 24]
+        keys, ks = [], set()
+        for x in chunk:
+            k = cstr(x) if b"\x00" in x else x         # a member name is a C string
+            if k not in ks:
+                ks.add(k)
+                keys.append((k, x))
+        yield [chunk, ("o", keys)]
+
+
 def retained_texts(bits):
     x = jvtext.bits2d(bits)
     cands = [repr(x), "%.17g" % x, "%.20e" % x, ("%.17g" % x).upper(), "%.25g" % x]
@@ -456,11 +525,21 @@ def fix_doubles(rng, tree, retained_p):
 
 def fix_strings(rng, tree):
     if isinstance(tree, bytes):
-        return rng.choice(STRING_EDGES) if rng.random() < 0.35 else tree
+        r = rng.random()
+        return rng.choice(STRING_EDGES) if r < 0.25 else special_string(rng) if r < 0.5 else tree
     if isinstance(tree, list):
         return [fix_strings(rng, x) for x in tree]
     if isinstance(tree, tuple) and tree[0] == "o":
-        return ("o", [(k, fix_strings(rng, x)) for k, x in tree[1]])
+        ms, seen = [], set(k for k, _ in tree[1])
+        for k, x in tree[1]:
+            if rng.random() < 0.25:
+                k2 = special_string(rng, nul=False)
+                if k2 not in seen:
+                    seen.discard(k)
+                    seen.add(k2)
+                    k = k2
+            ms.append((k, fix_strings(rng, x)))
+        return ("o", ms)
     return tree
 
 
@@ -728,7 +807,7 @@ def gen_history(rng, tree, nops):
         elif pick == "b":
             op = "B%s=%d" % (pstr(path), rng.randrange(2))
         else:
-            op = "T%s=%s" % (pstr(path), jvtext.hx(rng.choice(STRING_EDGES)))
+            op = "T%s=%s" % (pstr(path), jvtext.hx(rng.choice(STRING_EDGES) if rng.random() < 0.5 else special_string(rng)))
         ops.append(op)
         if op[0] != "R":
             t, _, _ = hist_step(t, None, op, None)
@@ -834,6 +913,18 @@ def gen(rng, tier):
         add(ds, "retained")
     for s in STRING_EDGES:
         add(s, "strings")
+    # every byte sequence in a string survives: the dictionary grid, values and member names
+    for t in string_grid():
+        add(t, "string-grid")          # quick: 0, 63, NOZERO and a rotation through all 64 words; thorough: all 64
+    for i in range(150 if quick else 2000):
+        vals = [special_string(rng) for _ in range(rng.randint(1, 6))]
+        keys, ks = [], set()
+        for _ in range(rng.randint(0, 4)):
+            k = special_string(rng, nul=False)
+            if k not in ks:
+                ks.add(k)
+                keys.append((k, special_string(rng)))
+        add(rng.choice([vals, ("o", keys), [("o", keys)] + vals, vals[0]]), "string-special")
     # general trees
     n = 1200 if quick else 5000
     for i in range(n):
